@@ -151,6 +151,9 @@ func fatal(f string, a ...any) {
 
 func newEnv() *env {
 	e := &env{ip: ownAddr(11), ip2: ownAddr(211), log: slog.New(slog.DiscardHandler), keys: map[uint16]keyInfo{}}
+	if os.Getenv("C11_DEBUG") != "" {
+		e.log = slog.New(slog.NewTextHandler(os.Stderr, &slog.HandlerOptions{Level: slog.LevelDebug}))
+	}
 	timebase.RegisterClock(sysClock{})
 	e.provider = ntske.NewProvider()
 	ctx := context.Background()
